@@ -273,6 +273,21 @@ def run_check(prop, tier, seed):
         for w in workers:
             w.close()
 
+    # ---- extraction cross-check (mrun vs mrun_ref, thorough: vs vm_compute) and coqchk
+    xc = C.cross_check(tier)
+    if xc['mismatches']:
+        proof['ok'] = False
+        proof['failed'].append('extraction cross-check mismatch: %s' % xc['mismatches'][:2])
+    chk = None
+    if tier == 'thorough':
+        q = subprocess.run(['timeout', '1800', 'coqchk', '-silent', '-o', '-Q', C.COQ, 'MsmV', 'MsmV.Props.' + prop],
+                           capture_output=True, text=True)
+        txt = q.stdout + q.stderr
+        chk = {'rc': q.returncode, 'axioms': re.findall(r'^\s+([A-Za-z_][\w.]*)\s*$', txt.split('Axioms:')[-1], flags=re.M)[:40] if 'Axioms:' in txt else [],
+               'tail': txt[-600:]}
+        if q.returncode != 0:
+            proof['ok'] = False
+            proof['failed'].append('coqchk failed')
     # ---- verdict
     lines, rc = [], 0
     for fid, case in known_hits.items():
@@ -302,7 +317,7 @@ def run_check(prop, tier, seed):
             'trusted_base': [
                 'Coq 8.16.1 kernel (coqc); vm_compute in finite-domain lemmas only; no native_compute',
                 'axioms reported by Print Assumptions: %s' % (proof['axioms'] or 'none (closed under the global context)'),
-                'extraction: ExtrOcamlBasic only (bool, option, unit, prod, list, sumbool, sumor), no Extract Constant; OCaml 4.13.1; ocaml/driver.ml',
+                'extraction: bin/mrun = Coq standard library ExtrOcamlBasic + ExtrOcamlZBigInt (positive/N/Z as Zarith integers; its Extract Inductive/Constant directives are those of theories/extraction/ExtrOcamlZBigInt.v, none of our own), ocaml/driverfast.ml; cross-checked on a sample each run against bin/mrun_ref = ExtrOcamlBasic only (bool, option, unit, prod, list, sumbool, sumor; Z, positive, nat as Coq inductives; ocaml/driver.ml) and, in the thorough tier, against vm_compute inside Coq; OCaml 4.13.1, zarith 1.12',
                 'hand-written model tied to /repo/src by the correspondence harness (harness/props/%s.py): sampled, not for-all' % prop.lower(),
             ] + list(getattr(mod, 'TRUSTED', [])),
             'theorems': proof['theorems'],
@@ -312,6 +327,7 @@ def run_check(prop, tier, seed):
             'input_distribution': dict(sorted(dist.items())),
             'known_findings_hit': sorted(known_hits),
             'proof_failures': proof['failed'],
+            'extraction_cross_check': xc, 'coqchk': chk,
         },
         'assumptions': list(getattr(mod, 'ASSUMPTIONS', [])),
         'wall_s': timer.s(), 'violations': len(violations) + (0 if proof['ok'] else 1),
